@@ -101,10 +101,10 @@ SPELL = [
 ]
 TOPO = ObjCall("t", "topo_")
 # the exceptional edge of a callee: `f(..., ec);` -> `{ f(..., ec); if (vx_exc) return; }`
-CNT_CALL = Call(r"\bcheck_num_threads", "{ check_num_threads({args}); if (vx_exc) return; }", 1, stmt=True)
+CNT_CALL = Call(r"\bcheck_num_threads", "{ check_num_threads({args}); if (vx_exc) return; }", None, stmt=True)
 OUT_VECS = [
     Sub(r"\baffinities\.size\(\)", "affinities->size", 1),
-    Call(r"\bnum_pus\.resize", "szvec_resize(num_pus, {0})", 1),
+    Call(r"\bnum_pus\.resize", "szvec_resize(num_pus, {0})", None),
     Index("affinities", "vx_aff_set(affinities, {0}, {s1});", suffix=r"\s*=(?!=)\s*([^;]+);"),
     Index("affinities", "vx_aff_get(affinities, {0})"),
     Index("num_pus", "vx_npu_set(num_pus, {0}, {s1});", suffix=r"\s*=(?!=)\s*([^;]+);"),
@@ -203,31 +203,53 @@ NUMA_P2_OUTER = ("(num_core == 0 ? (!num_pus_cores.scan_valid && num_thread <= n
                  "(%s && num_thread <= num_threads_socket.scan_prefix + num_pus_cores.scan_prefix + num_pus_cores.c_val))" % SCAN_AT("num_pus_cores", "num_core - 1"))
 NUMA_P2_INNER = ("((num_pu == 0 && %s) || (%s && num_pu <= num_pus_cores.c_val && num_thread <= num_threads_socket.scan_prefix + num_pus_cores.scan_prefix + num_pu))"
                  % (NUMA_P2_OUTER, SCAN_AT("num_pus_cores", "num_core")))
-NUMA_P2_COMMON = "%s && %s && %s && num_pus_cores.sum_known && num_pus_cores.total <= num_threads_socket.c_val && %s && %s && %s" % (
-    NCS_AT, SCAN_AT(NTS, "n"), NTS_TOT, PIB, E_INV, C_INV)
-NUMA_LOOPS_BOUNDS = {
+# -- P_BOUNDS is decided by two units: "local" (indices of the function's own vectors, error reporting) ...
+NUMA_LOOPS_LOCAL = {
     1: "__CPROVER_assigns(n, num_cores_socket)\n__CPROVER_loop_invariant(n <= num_sockets && %s)" % SZ3,
     2: "__CPROVER_assigns(n, core_offset, pus_t, num_pus_socket, num_cores_socket, g_invalid_pair)\n__CPROVER_loop_invariant(n <= num_sockets && %s)" % SZ3,
     3: "__CPROVER_assigns(num_core, num_pus_socket, num_cores_socket, g_invalid_pair)\n__CPROVER_loop_invariant(n < num_sockets && %s)" % SZ3,
     4: "__CPROVER_assigns(num_pu, num_pus_socket, g_invalid_pair)\n__CPROVER_loop_invariant(n < num_sockets && %s)" % SZ3,
-    5: "__CPROVER_assigns(n, pus_t2, num_threads_socket, num_pus_socket)\n"
-       "__CPROVER_loop_invariant(n <= num_sockets && %s && num_threads_socket.sum_known && num_threads_socket.total == pus_t2 && num_threads_socket.zero_from == n"
-       " && pus_t2 <= num_threads && !num_threads_socket.scan_valid && VV_WF(num_threads_socket))" % SZ3,
+    5: "__CPROVER_assigns(n, pus_t2, num_threads_socket, num_pus_socket)\n__CPROVER_loop_invariant(n <= num_sockets && %s)" % SZ3,
     6: "__CPROVER_assigns(n, num_thread, core_offset, num_threads_socket, num_cores_socket, OUT_FRAME, PI_FRAME, ERR_FRAME)\n"
-       "__CPROVER_loop_invariant(n <= num_sockets && %s && %s && %s && %s && %s)" % (SZ3, NTS_TOT, HEAD6, E_INV, C_INV),
+       "__CPROVER_loop_invariant(n <= num_sockets && %s && %s && %s)" % (SZ3, E_INV, C_INV),
     7: "__CPROVER_assigns(num_thread_socket, num_threads_socket, num_cores_socket, next_pu_index, num_pus_cores, pu_indexes, g_invalid_pair)\n"
-       "__CPROVER_loop_invariant(n < num_sockets && %s && %s && %s && %s && %s && ((num_thread_socket == 0 && %s) || "
-       "(%s && num_thread_socket <= num_threads_socket.c_val && num_thread <= num_threads_socket.scan_prefix)))" % (
-           SZ3, NCS_AT, NTS_TOT, NPC1, PIB, HEAD6, SCAN_AT(NTS, "n")),
+       "__CPROVER_loop_invariant(n < num_sockets && %s && %s && %s)" % (SZ3, NCS_AT, PIB),
     8: "__CPROVER_assigns(num_core, num_thread_socket, num_threads_socket, num_cores_socket, next_pu_index, num_pus_cores, pu_indexes, g_invalid_pair)\n"
-       "__CPROVER_loop_invariant(n < num_sockets && num_core <= NCORES && %s && %s && %s && %s && %s && "
-       "%s && num_thread_socket < num_threads_socket.c_val && num_thread <= num_threads_socket.scan_prefix)" % (
-           SZ3, NCS_AT, NTS_TOT, NPC1, PIB, SCAN_AT(NTS, "n")),
+       "__CPROVER_loop_invariant(n < num_sockets && num_core <= NCORES && %s && %s && %s)" % (SZ3, NCS_AT, PIB),
     9: "__CPROVER_assigns(pu_index, use_pu, g_invalid_pair)\n__CPROVER_loop_invariant(!use_pu)",
     10: "__CPROVER_assigns(num_core, num_thread, num_cores_socket, num_pus_cores, pu_indexes, OUT_FRAME, PI_FRAME, ERR_FRAME)\n"
-        "__CPROVER_loop_invariant(n < num_sockets && num_core <= NCORES && %s && %s && %s)" % (SZ3, NUMA_P2_COMMON, NUMA_P2_OUTER),
+        "__CPROVER_loop_invariant(n < num_sockets && num_core <= NCORES && %s && %s && %s && %s && %s)" % (SZ3, NCS_AT, PIB, E_INV, C_INV),
     11: "__CPROVER_assigns(num_pu, num_thread, num_pus_cores, pu_indexes, OUT_FRAME, PI_FRAME, ERR_FRAME)\n"
-        "__CPROVER_loop_invariant(n < num_sockets && num_core < NCORES && %s && %s && %s)" % (SZ3, NUMA_P2_COMMON, NUMA_P2_INNER),
+        "__CPROVER_loop_invariant(n < num_sockets && num_core < NCORES && %s && %s && %s && %s && %s)" % (SZ3, NCS_AT, PIB, E_INV, C_INV),
+    "count": 11,
+}
+# ... and "workers" (the worker index num_thread stays below num_threads: sums of the per-socket / per-core counters)
+WSZ = "num_pus->size == num_threads && affinities->size == num_threads"
+NUMA_W_COMMON = "%s && %s && num_pus_cores.sum_known && num_pus_cores.total <= num_threads_socket.c_val && VV_WF(num_pus_cores) && !vx_exc && %s" % (
+    SCAN_AT(NTS, "n"), NTS_TOT, WSZ)
+NUMA_LOOPS_WORKERS = {
+    1: "__CPROVER_assigns(n, num_cores_socket)\n__CPROVER_loop_invariant(n <= num_sockets)",
+    2: "__CPROVER_assigns(n, core_offset, pus_t, num_pus_socket, num_cores_socket, g_invalid_pair)\n__CPROVER_loop_invariant(n <= num_sockets)",
+    3: "__CPROVER_assigns(num_core, num_pus_socket, num_cores_socket, g_invalid_pair)\n__CPROVER_loop_invariant(n < num_sockets)",
+    4: "__CPROVER_assigns(num_pu, num_pus_socket, g_invalid_pair)\n__CPROVER_loop_invariant(num_pu <= num_pus)",
+    5: "__CPROVER_assigns(n, pus_t2, num_threads_socket, num_pus_socket)\n"
+       "__CPROVER_loop_invariant(n <= num_sockets && num_threads_socket.sum_known && num_threads_socket.total == pus_t2 && num_threads_socket.zero_from == n"
+       " && pus_t2 <= num_threads && !num_threads_socket.scan_valid && VV_WF(num_threads_socket))",
+    6: "__CPROVER_assigns(n, num_thread, core_offset, num_threads_socket, num_cores_socket, OUT_FRAME, PI_FRAME, ERR_FRAME)\n"
+       "__CPROVER_loop_invariant(n <= num_sockets && %s && %s && !vx_exc && %s)" % (NTS_TOT, HEAD6, WSZ),
+    7: "__CPROVER_assigns(num_thread_socket, num_threads_socket, num_cores_socket, next_pu_index, num_pus_cores, pu_indexes, g_invalid_pair)\n"
+       "__CPROVER_loop_invariant(%s && %s && VV_WF(num_pus_cores) && ((num_thread_socket == 0 && %s) || "
+       "(%s && num_thread_socket <= num_threads_socket.c_val && num_thread <= num_threads_socket.scan_prefix)))" % (
+           NTS_TOT, NPC1, HEAD6, SCAN_AT(NTS, "n")),
+    8: "__CPROVER_assigns(num_core, num_thread_socket, num_threads_socket, num_cores_socket, next_pu_index, num_pus_cores, pu_indexes, g_invalid_pair)\n"
+       "__CPROVER_loop_invariant(%s && %s && VV_WF(num_pus_cores) && "
+       "%s && num_thread_socket < num_threads_socket.c_val && num_thread <= num_threads_socket.scan_prefix)" % (
+           NTS_TOT, NPC1, SCAN_AT(NTS, "n")),
+    9: "__CPROVER_assigns(pu_index, use_pu, g_invalid_pair)\n__CPROVER_loop_invariant(!use_pu)",
+    10: "__CPROVER_assigns(num_core, num_thread, num_cores_socket, num_pus_cores, pu_indexes, OUT_FRAME, PI_FRAME, ERR_FRAME)\n"
+        "__CPROVER_loop_invariant(%s && %s)" % (NUMA_W_COMMON, NUMA_P2_OUTER),
+    11: "__CPROVER_assigns(num_pu, num_thread, num_pus_cores, pu_indexes, OUT_FRAME, PI_FRAME, ERR_FRAME)\n"
+        "__CPROVER_loop_invariant(%s && %s)" % (NUMA_W_COMMON, NUMA_P2_INNER),
     "count": 11,
 }
 # P_PAIR: what is stored for worker k satisfies the property predicates; the victim cell of pu_indexes holds a PU of
@@ -308,10 +330,14 @@ def numa_lifts(loops):
 
 
 UNITS = [
-    Unit("decode.numa_balanced.bounds", "decoders.c", defines=["U_NUMA_BOUNDS", "NCORES=num_cores_socket.c_val"],
-         enforce="decode_numabalanced_distribution", lifts=numa_lifts(NUMA_LOOPS_BOUNDS),
+    Unit("decode.numa_balanced.workers", "decoders.c", defines=["U_NUMA_WORKERS", "VX_NO_LOCAL_IDX_ASSERT"],
+         enforce="decode_numabalanced_distribution", lifts=numa_lifts(NUMA_LOOPS_WORKERS),
          funcs=[PAO + ": decode_numabalanced_distribution, check_num_threads, pu_in_process_mask"], min_obligations=40, timeout=300, no_replay=DEV, object_bits=12,
-         doc="every vector access in bounds, num_pus sized, oversubscription reported"),
+         doc="affinities[num_thread] / num_pus[num_thread]: the worker index stays below num_threads"),
+    Unit("decode.numa_balanced.local", "decoders.c", defines=["U_NUMA_BOUNDS", "VX_NO_OUT_IDX_ASSERT", "VX_NO_SUM", "NCORES=num_cores_socket.c_val"],
+         enforce="decode_numabalanced_distribution", lifts=numa_lifts(NUMA_LOOPS_LOCAL),
+         funcs=[PAO + ": decode_numabalanced_distribution, check_num_threads, pu_in_process_mask"], min_obligations=40, timeout=300, no_replay=DEV, object_bits=12,
+         doc="every access to the function's local vectors in bounds, num_pus sized, oversubscription reported"),
     Unit("decode.numa_balanced.pair", "decoders.c", defines=["U_NUMA_PAIR", "VX_NO_IDX_ASSERT", "VX_NO_SUM"],
          enforce="decode_numabalanced_distribution", lifts=numa_lifts(NUMA_LOOPS_PAIR),
          funcs=[PAO + ": decode_numabalanced_distribution, check_num_threads, pu_in_process_mask"], min_obligations=40, timeout=300, no_replay=DEV, object_bits=12,
